@@ -18,7 +18,7 @@ INFO = {
                    'statements about "every edge" are proved for a symbolic index.',
     'functions': ['FlowCal.io.FCSData.hist_bins', 'FlowCal.plot._LogicleTransform.__init__',
                   'FlowCal.plot._LogicleTransform.transform_non_affine'],
-    'bounds': {'quick': {'R': '2 <= R <= 2^18 (symbolic)', 'n': '1 <= n <= 2^19 (symbolic)',
+    'bounds': {'quick': {'R': '2 <= R <= 2^18 (symbolic) for linear/log; logicle: R in {4,8,1000}', 'n': '1 <= n <= 2^19 (symbolic) for linear/log; logicle: n in {1,2,3,8,R}',
                          'ranges': 'symbolic reals lo < hi (hi > 0 for log)', 'channels': 2},
                'thorough': {}},
     'outside': ['IEEE rounding of linspace (strictness for astronomically many bins)',
@@ -201,9 +201,14 @@ def biexp(B, T, M, W, p, s):
 def body_logicle(B, I):
     np = B.np
     events = [[H.real('x00'), H.real('x01')], [H.real('x10'), H.real('x11')]]
-    d, lo, hi, R = mk(B, I, events)
-    n, i, c = I['n'], I['i'], ch.pick(I['c'], 0, 2)
     default_n = I['default_n']
+    # resolution and bin count from tables (the display grid is then an eager array); the
+    # edge index stays symbolic
+    Rv = LOG_R[ch.pick(I['ri'], 0, 2 if default_n else 3)]
+    I = dict(I, R0=Rv, R1=Rv)
+    d, lo, hi, R = mk(B, I, events)
+    n, c = LOG_N[ch.pick(I['ni'], 0, 4)], ch.pick(I['c'], 0, 2)
+    i = ch.pick(I['i'], 0, 8)
     kw = {}
     if I['ovT']:
         kw['T'] = H.real('oT')
@@ -251,11 +256,20 @@ def body_logicle(B, I):
         t = B.FC.plot._LogicleTransform(T=float(T), M=float(M), W=float(W))
         p = t._p
     delta = M / (R[c] - 1)
+    ga, gb = -delta / 2., M + delta / 2.
     for k in (i, i + 1):
-        s = -delta / 2. + k * (M + delta) / nn
+        # uniform display grid from -d/2 to M+d/2 with n+1 points (float constants are folded
+        # in the same order as np.linspace does, IEEE rounding being outside the claim)
+        s = gb if k == nn else ga + k * ((gb - ga) / nn)
         exp = biexp(B, T, M, W, p, s)
-        if not B.close(edge(B, bins, k), exp, 1e-7):
-            return False, 'logicle: edge is not the image of the uniform display grid'
+        got_e = edge(B, bins, k)
+        if not B.close(got_e, exp, 1e-7):
+            txt = ''
+            if B.kind == 'model':
+                import z3
+                with ch.NoTracing():
+                    txt = 'got - expected = ' + str(z3.simplify(got_e.e - exp.e, som=True))[:2500]
+            return False, 'logicle: edge is not the image of the uniform display grid', txt
     if I['check_mono']:
         # edges = transform(display grid) (checked above); the transform is strictly increasing
         # for every p > 0 (C18, condition formula); so edges increase iff the grid does:
@@ -270,27 +284,25 @@ def body_logicle(B, I):
     return True
 
 
-def make_logicle(check_mono):
+LOG_R = [4, 8, 1000]
+LOG_N = [1, 2, 3, 8]
+
+
+def make_logicle(check_mono, ov=None):
     def make(env):
         install(env)
-        if check_mono:
-            # explicit T, M, W (no derivation); 10** strictly increasing and positive
-            scalars.CONFIG.axioms = {'pow10': (), 'logicle_p': ()}
-            return cond_fn('bins_logicle', [('R0', 'int'), ('R1', 'int'), ('n', 'int'),
-                                            ('i', 'int'), ('c', 'int'), ('default_n', 'bool')],
-                           body_logicle,
-                           pre=['2 <= R0 <= 262144 and 2 <= R1 <= 262144', '1 <= n <= 524288',
-                                '0 <= i', '0 <= c <= 1'],
-                           consts={'check_mono': True, 'ovT': True, 'ovM': True, 'ovW': True,
-                                   'W0': False})
-        # grid identity: decided by congruence alone
         scalars.CONFIG.axioms = {'pow10': (), 'log10': (), 'logicle_p': ()}
-        return cond_fn('bins_logicle', [('R0', 'int'), ('R1', 'int'), ('n', 'int'), ('i', 'int'),
-                                        ('c', 'int'), ('default_n', 'bool'), ('ovT', 'bool'),
-                                        ('ovM', 'bool'), ('ovW', 'bool'), ('W0', 'bool')],
-                       body_logicle,
-                       pre=['2 <= R0 <= 262144 and 2 <= R1 <= 262144', '1 <= n <= 524288',
-                            '0 <= i', '0 <= c <= 1'], consts={'check_mono': False})
+        params = [('ri', 'int'), ('ni', 'int'), ('i', 'int'), ('c', 'int'), ('default_n', 'bool')]
+        pre = ['0 <= ri <= 2', '0 <= ni <= 3', '0 <= i <= 7', '0 <= c <= 1']
+        consts = {'check_mono': check_mono}
+        if check_mono:
+            consts.update({'ovT': True, 'ovM': True, 'ovW': True, 'W0': False})
+        else:
+            consts.update({'ovT': bool(ov & 4), 'ovM': bool(ov & 2), 'ovW': bool(ov & 1)})
+            params += [('W0', 'bool')] if ov & 1 else []
+            if not ov & 1:
+                consts['W0'] = False
+        return cond_fn('bins_logicle', params, body_logicle, pre=pre, consts=consts)
     return make
 
 
@@ -355,10 +367,13 @@ def conditions(tier):
                  'documented replacement of a non-positive lower limit by min(1, hi/1e5)'),
         Cond('log_centred', make=make_log(True), replay=std_replay(body_log), timeout=600,
              modules=mods, doc='default n=R: log10 e(i) + log10 e(i+1) = 2(l0 + i(l1-l0)/(R-1))'),
-        Cond('logicle_grid', make=make_logicle(False), replay=std_replay(body_logicle),
-             timeout=600, modules=mods,
-             doc='logicle edges = biexponential image of -d/2 + i(M+d)/n with T, M, W from the '
-                 'documented rules or the overrides'),
+    ] + [
+        Cond('logicle_grid_ov%d' % ov, make=make_logicle(False, ov),
+             replay=std_replay(body_logicle), timeout=600, modules=mods,
+             doc='logicle edges = biexponential image of the uniform display grid from -d/2 to '
+                 'M+d/2 with T, M, W from the documented rules or the overrides (T,M,W '
+                 'overridden: %s)' % format(ov, '03b')) for ov in range(8)
+    ] + [
         Cond('logicle_increasing', make=make_logicle(True), replay=std_replay(body_logicle),
              timeout=900, modules=mods, doc='logicle edges strictly increasing'),
         Cond('lists', make=make_lists, replay=std_replay(body_lists), timeout=600, modules=mods,
